@@ -21,6 +21,8 @@ const WORDS: &[&str] = &[
     "job-id ", "job-ids", "xjob-id", "printer-uri/", "attributes-charse", "job_id",
     // names that extend (or are extended by) the specially ordered ones
     "printer-uri-supported", "job-uri-x", "attributes-charset-supported", "attributes-natural-language-x", "job-id-attribute", "job", "printer",
+    // names of the library's own struct fields and variants (a serialised form must not confuse them with attributes)
+    "tag", "attributes", "name", "value", "header", "groups", "payload", "version", "operation_or_status", "request_id", "Integer", "Array",
     // keywords with a meaning of their own
     "all", "none", "job-template", "printer-description", "media-col-database",
 ];
